@@ -8,14 +8,14 @@ import tgen
 PROP = "C07"
 LEVEL = "proof"
 GEN_UNITS = ["GenUtils", "GenUtils3b", "GenSptensor4", "GenKtensor4"]   # Props/C07Gen4.v + Props/W4C07.v: the generated whole methods sptensor.permute / ktensor.permute; Props/C07w3.v: sparse reshape over the generated tt_sub2ind / tt_ind2sub; Props/C07w4.v: requests over the generated parse_one_d / parse_shape
-COQ_TARGETS = ["Props/C07.vo", "Props/C07w3.vo", "Props/C07w4.vo", "Props/C07Gen4.vo", "Props/W4C07.vo", "Model/C07Gen4.vo", "Model/C07Harness.vo", "Model/C07Harness2.vo", "Model/C07Gen.vo",
+COQ_TARGETS = ["Props/C07.vo", "Props/C07w3.vo", "Props/C07w4.vo", "Props/C07w5.vo", "Model/C07W5.vo", "Props/C07Gen4.vo", "Props/W4C07.vo", "Model/C07Gen4.vo", "Model/C07Harness.vo", "Model/C07Harness2.vo", "Model/C07Gen.vo",
                "Model/C07Req.vo", "Model/C07Impl.vo", "Model/Harness.vo"]
-THEOREM_FILES = ["Props/C07.v", "Props/C07w3.v", "Props/C07w4.v", "Props/C07Gen4.v",
+THEOREM_FILES = ["Props/C07.v", "Props/C07w3.v", "Props/C07w4.v", "Props/C07w5.v", "Props/C07Gen4.v",
                  "Props/W4C07.v"]    # W4C07.v is the translator builder's file (sptensor.ones / permute generated, bridged to permute_sp): claimed here like C04 claims W3C04.v
 COQ_IMPORTS = ("From Coq Require Import List ZArith Bool.\n"
                "From PV Require Import Base.Index Base.Perm Np.Array Model.Sparse Model.Repr Model.Harness "
                "Model.C07Ops Model.C07Harness Model.C07Ops2 Model.C07Harness2 Np.NpZ Gen.GenUtils Model.C07Gen "
-               "Np.NpZ2 Np.NpZ3 Np.NpZ3b Gen.GenUtils3b Model.C07Req Model.C07Impl "
+               "Np.NpZ2 Np.NpZ3 Np.NpZ3b Gen.GenUtils3b Model.C07Req Model.C07Impl Model.C07W5 "
                "Gen.GenSptensor4 Gen.GenKtensor4 Model.W4Ktensor Model.W4Sptensor Model.C07Gen4.\n")
 RULE = ("permute: all N! orders for N<=4 (seeded sample for N=5) on shapes with distinct sizes (2,3,4,5), repeated sizes and "
         "singletons, for dense / sparse / Kruskal (rank 0..3) / Tucker with a dense core / Tucker with a sparse core (core <= "
@@ -43,7 +43,15 @@ RULE = ("permute: all N! orders for N<=4 (seeded sample for N=5) on shapes with 
         "GENERATED parse_one_d / parse_shape; negative and zero sizes; sparse subset reshape with mode numbers outside 0..N-1; "
         "dense holders grown by __setitem__ past their extent (element / slice / subscript-array assignment), float32 / int8 / "
         "int32 data; sparse holders with float32 / int8 values, int8 / int32 / uint8 subscripts; integer values 2^33..2^52 + k; "
-        "histories of 4-7 random permute / reshape / squeeze steps on one object")
+        "histories of 4-7 random permute / reshape / squeeze steps on one object. Fifth wave: the witnesses of the repaired "
+        "N-C07-1..6 as regression cases; boolean orders (every truth vector of the right length, one too long / too short; as "
+        "bool array, (N,1) bool array, list / tuple of bools, bare bool, 0-d bool array) on all five holders; dense squeeze of "
+        "shapes with size-0 modes in 6 layouts and inside histories; sparse subset reshape with mode numbers < 0 or >= N as bare "
+        "int / list / tuple / int8 array, alone and next to valid modes, with and without stored entries; negative sizes in the "
+        "target of full and subset reshapes, with and without stored entries; every non-ascending listing of every mode subset "
+        "with >= 2 non-singleton modes (sparse, and against the dense route); dense reshape from sources with at most one "
+        "non-singleton mode ((n), (1,n), (n,1), (1,1,n), (1,n,1)) to every >= 2-factor target in random layouts, and the round "
+        "trips target -> source -> reversed target, dense and sparse")
 EXPLANATION = ("Theorems (Props/C07.v) are over the hand-written models Model/C07Ops.v and Model/C07Ops2.v, for all N, shapes, "
                "orders and any value type (Kruskal/Tucker: any commutative ring). The correspondence stream runs pyttb and the "
                "model on the same inputs and compares shape, denotation at every subscript, well-formedness and nnz in Coq; "
@@ -52,8 +60,12 @@ EXPLANATION = ("Theorems (Props/C07.v) are over the hand-written models Model/C0
                "transliteration of sptensor.reshape over the GENERATED tt_sub2ind / tt_ind2sub (Props/C07w3.v bridges it to "
                "the hand model), so an edit of those helpers breaks the proof or the comparison. Orders / shapes written in a "
                "specific form are read on the model side by the GENERATED parse_one_d / parse_shape (Model/C07Req.v, "
-               "Props/C07w4.v). Open findings N-C07-3 / N-C07-4 (sptensor.reshape: negative mode numbers, negative sizes on a "
-               "tensor without stored entries) are attributed only on exactly those requests.")
+               "Props/C07w4.v). Fifth wave: every sparse reshape request is also evaluated through Model/C07W5.v reshape_sp_code, "
+               "the transliteration of sptensor.reshape as written after /repo b27c529 (mode-number test, size-sign test, size "
+               "check, empty branch, generated tt_sub2ind / tt_ind2sub; Props/C07w5.v bridges it to the request-level "
+               "specification); dense squeeze follows the repaired `shape != 1` tests (size-0 modes are kept); boolean orders "
+               "are refused by sparse / dense / Tucker holders and read as 1 / 0 by ktensor.permute. No finding is open: "
+               "nothing is attributed.")
 CORRESPONDENCE_ONLY = []
 ASSUMPTIONS = ["numpy transpose / F-order reshape / squeeze semantics as defined in Np/Array.v (np_transpose, np_reshapeF)",
                "np.ravel_multi_index / np.unravel_index / negative-index wrap as defined in Np/NpZ.v (used by the generated "
@@ -268,6 +280,10 @@ def gen_cases(rng, tier):
     cases += gen_w3(rng, big)
     # ================= fourth wave: invalid orders, request forms, grown / typed holders, wide values, long histories
     cases += gen_w4(rng, big)
+    # ================= fifth wave: the input classes of the repaired N-C07-3..6 as ordinary cases (mode numbers outside 0..N-1
+    # in every spelling, negative sizes with and without stored entries, boolean orders on all holders, dense squeeze with
+    # size-0 modes), listed-order-sensitive subset reshapes, dense reshape from / to shapes with at most one non-singleton mode
+    cases += gen_w5(rng, big)
     return cases
 
 
@@ -280,6 +296,7 @@ GROWN_LAYOUTS = ["grown_elem", "grown_slice", "grown_subs", "grown_empty_elem", 
 ORDER_FORMS_OK = ["list", "tuple", "row", "col", "cube", "int8"]
 ORDER_FORMS_BAD = ["float", "mat2", "nested"]
 SCALAR_FORMS = ["scalar", "npint", "arr0d"]
+BOOL_FORMS = ["bool", "bool_col", "bool_list", "bool_tuple", "bool_scalar", "bool0d"]     # the last two: one entry
 SP_VARIANTS_W4 = ["val_float32", "val_int8", "subs_int8", "subs_int32", "subs_uint8"]
 FACTOR_LAYOUTS = ["C", "assignC", "assign_view", "grown_core"]   # grown_core: Tucker core grown by assignment (C-ordered), handed over with copy=False
 SCALES = [-30, -20, 24, 40]
@@ -711,6 +728,111 @@ def gen_w4(rng, big):
     return cases
 
 
+def gen_w5(rng, big):
+    cases = []
+    rep = 3 if big else 1
+    # ---------------- the witnesses of the repaired findings, as ordinary regression cases
+    W = {"shape": [2, 3], "subs": [[0, 1], [1, 2]], "vals": [5, 6]}
+    cases.append(Case("reshape_sp", dict(W, new=[3], old=[1], oldz=[-1], oform="scalar"), True))                     # N-C07-3
+    cases.append(Case("reshape_sp", {"shape": [2, 3], "subs": [], "vals": [], "newz": [-2, -3], "new": [2, 3], "old": None}, True))  # N-C07-4
+    cases.append(Case("permute_sp", dict(W, p=[1, 0], pform="bool_list"), True))                                       # N-C07-5
+    cases.append(Case("squeeze_d", {"shape": [1, 0], "data": []}, False))                                              # N-C07-6
+    cases.append(Case("squeeze_sp", {"shape": [1, 1, 1], "subs": [], "vals": []}, False))                              # N-C07-1
+    cases.append(Case("reshape_sp", {"shape": [2, 1, 3], "subs": [[0, 0, 0], [1, 0, 2]], "vals": [5, 6], "new": [3],
+                                     "old": [2], "old_int": True}, True))                                              # N-C07-2
+    # ---------------- boolean orders (entries 1 / 0 = True / False) on all five holders: every truth vector of the right
+    # length (the mixed ones sort to 0, 1), one of a wrong length, in every spelling
+    for shp in [[3], [1], [2, 3], [3, 2], [2, 2], [1, 4], [2, 3, 4], [3, 1, 2]]:
+        N = len(shp)
+        vecs = [list(v) for v in itertools.product([0, 1], repeat=N)]
+        vecs.append([rng.randint(0, 1) for _ in range(N + 1)])
+        if N > 1:
+            vecs.append([rng.randint(0, 1) for _ in range(N - 1)])
+        for v in vecs:
+            forms = ["bool", "bool_col", "bool_list", "bool_tuple"] + (["bool_scalar", "bool0d"] if len(v) == 1 else [])
+            for form in (forms if big else rng.sample(forms, 2)):
+                cases += _permute_cases(rng, shp, v, True, pform=form)
+    # ---------------- dense squeeze with modes of size 0 (kept: they are no singletons), alone and inside histories
+    for shp in [[1, 0], [1, 0, 1], [0], [2, 0, 1], [0, 1, 3], [1, 0, 1, 3], [0, 0], [1, 1, 0], [0, 1], [3, 0], [1, 0, 0, 1]]:
+        for lay in [None, "C", "C_nocopy", "int", "float32", "assignC"]:
+            cases.append(Case("squeeze_d", {"shape": shp, "data": [], "layout": lay}, False))
+        sq = [d for d in shp if d != 1]
+        steps = [["squeeze"]]
+        if len(sq) >= 2:
+            q = list(range(len(sq)))
+            rng.shuffle(q)
+            steps.append(["permute", q])
+        steps += [["reshape", with_ones(rng, [0, rng.randint(2, 4)])], ["squeeze"]]
+        cases.append(Case("chain", {"holder": "d", "shape": shp, "data": [], "steps": steps, "law": None, "layout": None}, False))
+        cases.append(Case("chain", {"holder": "d", "shape": shp, "data": [], "law": "rs", "layout": None,
+                                    "steps": [["reshape", with_ones(rng, sq)], ["squeeze"]]}, False))
+    # ---------------- sparse subset reshape: mode numbers outside 0..N-1 in every spelling (bare int, list, tuple, int8 array,
+    # array), alone and next to valid modes, on tensors with and without stored entries; negative sizes in the target of a
+    # subset reshape and of a full reshape, with and without stored entries
+    for shp in [[2, 3], [2, 3, 4], [3, 1, 2], [4], [2, 2, 3, 2]]:
+        N = len(shp)
+        for _ in range(2 * rep):
+            k = rng.randrange(N)
+            for fill in [0.0, rng.choice([0.5, 1.0])]:
+                for oldz in [[k - N], [-N - 1], [N], [N + 2]] + ([[k, (k + 1) % N - N], [N, k]] if N >= 2 else []):
+                    form = rng.choice(["scalar", "list", "tuple", "int8", None]) if len(oldz) == 1 else rng.choice(["list", "tuple", "int8", None])
+                    m = math.prod(shp[j % N] for j in oldz)
+                    subs, vals = rand_sparse(rng, shp, fill)
+                    cases.append(Case("reshape_sp", {"shape": shp, "subs": subs, "vals": vals, "new": list(rng.choice(facs_of(m))),
+                                                     "old": [j % N for j in oldz], "oldz": oldz, "oform": form}, True))
+                old = rng.sample(range(N), rng.randint(1, N))
+                m = math.prod(shp[j] for j in old)
+                f = list(rng.choice(facs_of(m)))
+                for tgt in [[-x for x in f] if len(f) % 2 == 0 else [-f[0], -1] + f[1:], [-1, -m], [m, 0], f + [-1, -1]]:
+                    subs, vals = rand_sparse(rng, shp, fill)
+                    cases.append(Case("reshape_sp", {"shape": shp, "subs": subs, "vals": vals, "new": [abs(t) for t in tgt],
+                                                     "newz": tgt, "old": old, "oldz": old, "oform": rng.choice(["list", None])}, True))
+                n = math.prod(shp)
+                f = list(rng.choice(facs_of(n)))
+                for tgt in [[-x for x in f] if len(f) % 2 == 0 else [-f[0], -1] + f[1:], [-1, -n]]:
+                    subs, vals = rand_sparse(rng, shp, fill)
+                    cases.append(Case("reshape_sp", {"shape": shp, "subs": subs, "vals": vals, "new": [abs(t) for t in tgt],
+                                                     "newz": tgt, "old": None}, True))
+    # ---------------- the listed ORDER of old_modes matters (mode listed first varies fastest): every ordering of every
+    # subset with at least two non-singleton modes, entries at distinct positions in each listed mode
+    for shp in [[2, 3, 4], [3, 2, 2], [2, 3, 1, 2], [4, 3]]:
+        N = len(shp)
+        for r in range(2, N + 1):
+            for comb in itertools.combinations(range(N), r):
+                if sum(1 for k in comb if shp[k] > 1) < 2:
+                    continue
+                perms_ = [list(q) for q in itertools.permutations(comb) if list(q) != sorted(q)]
+                for old in (perms_ if big else rng.sample(perms_, min(len(perms_), 2))):
+                    m = math.prod(shp[k] for k in old)
+                    for tgt in [[m], [m, 1], list(rng.choice(facs_of(m)))]:
+                        subs, vals = rand_sparse(rng, shp, rng.choice([0.5, 1.0]))
+                        form = rng.choice(["list", "tuple", "int8", None])
+                        cases.append(Case("reshape_sp", {"shape": shp, "subs": subs, "vals": vals, "new": tgt, "old": old,
+                                                         "oform": form}, bool(vals)))
+                        data = tgen.rand_dense(rng, shp, 1.0)
+                        subs, vals = tgen.dense_to_sparse(shp, data, rng, "random")
+                        cases.append(Case("reshape_agree", {"shape": shp, "data": data, "subs": subs, "vals": vals,
+                                                            "new": tgt, "old": old}, True))
+    # ---------------- dense reshape whose SOURCE has at most one non-singleton mode (data both C- and F-contiguous) into
+    # targets with at least two non-singleton modes, and back, in every layout
+    for n in [6, 8, 12] + ([24, 30] if big else []):
+        for src in [[n], [1, n], [n, 1], [1, 1, n], [1, n, 1]]:
+            for tgt in [f for f in ordered_factorisations(n) if len(f) >= 2][: (8 if big else 3)]:
+                for lay in ([None] + DENSE_LAYOUTS if big else [None, rng.choice(DENSE_LAYOUTS)]):
+                    data = tgen.rand_dense(rng, src, 1.0)
+                    if len(set(data)) < 2:
+                        data[0] += 1
+                    cases.append(Case("reshape_d", {"shape": src, "data": data, "new": with_ones(rng, tgt) if rng.random() < 0.3 else tgt,
+                                                    "layout": lay}, True))
+                data = tgen.rand_dense(rng, src, 1.0)
+                subs, vals = tgen.dense_to_sparse(src, data, rng, "random")
+                cases.append(Case("chain", {"holder": "d", "shape": src, "data": data, "law": None, "layout": None,
+                                            "steps": [["reshape", tgt], ["reshape", src], ["reshape", tgt[::-1]]]}, True))
+                cases.append(Case("chain", {"holder": "sp", "shape": src, "subs": subs, "vals": vals, "law": None,
+                                            "steps": [["reshape", tgt], ["reshape", src], ["reshape", tgt[::-1]]]}, bool(vals)))
+    return cases
+
+
 # ---------------------------------------------------------------------------------------- pyttb side
 def _int_arg(np, v, form):
     """the integer vector v (an order or a target shape) as the caller may write it"""
@@ -740,6 +862,19 @@ def _int_arg(np, v, form):
         return np.int64(v[0])
     if form == "arr0d":
         return np.array(int(v[0]))
+    # boolean orders (entries 0 / 1 stand for False / True)
+    if form == "bool":
+        return np.array([bool(x) for x in v], dtype=bool)
+    if form == "bool_col":
+        return np.array([[bool(x)] for x in v], dtype=bool)
+    if form == "bool_list":
+        return [bool(x) for x in v]
+    if form == "bool_tuple":
+        return tuple(bool(x) for x in v)
+    if form == "bool_scalar":
+        return bool(v[0])
+    if form == "bool0d":
+        return np.array(bool(v[0]))
     raise ValueError(form)
 
 
@@ -757,6 +892,11 @@ def _gshp(v, form):
         return f"(SInt {gz(v[0])})"
     if form == "arr0d":
         return f"(SArr (mknd (@nil Z) DInt [NFin {gz(v[0])}]))"
+    if form in BOOL_FORMS:
+        # a list / tuple of Python bools and the bare bool are written as the boolean array that the first statement of
+        # parse_one_d makes of them (np.array(list) / np.array([True])): pyelem (Np/NpZ3.v) has no boolean entries
+        bshape = {"bool_col": [n, 1], "bool0d": []}.get(form, [n])
+        return f"(SArr (mknd {_gzl(bshape)} DBool {nf}))"
     shape = {"arr": [n], "int8": [n], "float": [n], "row": [1, n], "col": [n, 1], "cube": [1, n, 1], "mat2": [2, n]}[form]
     if form == "mat2":
         nf = "[" + "; ".join(f"NFin {gz(x)}" for x in list(v) + list(v)) + "]"
@@ -1095,7 +1235,7 @@ def run_impl(c):
             elif c.op == "squeeze_sp":
                 R = S.squeeze()
             elif "oldz" in a:
-                R = S.reshape(tuple(a["new"]), np.array(a["oldz"], dtype=int))
+                R = S.reshape(tuple(a.get("newz", a["new"])), _int_arg(np, a["oldz"], a.get("oform")))
             elif a["old"] is None:
                 R = S.reshape(tuple(a["newz"]) if "newz" in a else _int_arg(np, a["new"], a["sform"]) if a.get("sform") else tuple(a["new"]))
             elif a.get("old_int"):
@@ -1307,9 +1447,12 @@ def _gzl(v):
     return "[" + "; ".join(gz(x) for x in v) + "]" if v else "(@nil Z)"
 
 
-def _perm_call(fn, a):
+def _perm_call(fn, a, req5=None):
     """model call of a permute: the order as a nat list, or — when the request is written in a specific form or has a negative
-    entry — through the request level of Model/C07Req.v (generated parse_one_d; negative entries)"""
+    entry — through the request level of Model/C07Req.v (generated parse_one_d; negative entries); dense and Kruskal holders
+    through the fifth-wave request models of Model/C07W5.v (req5: what they do with a boolean order)"""
+    if a.get("pform") and req5:
+        return f"({req5} {_gshp(a['p'], a['pform'])})"
     if a.get("pform"):
         return f"(with_order ({fn}) {_gshp(a['p'], a['pform'])})"
     if any(x < 0 for x in a["p"]):
@@ -1339,7 +1482,7 @@ def coq_check(c, o):
         if not exc and not _d_ok(o["ok"]):
             return "false"
         obs = "None" if exc else f"(Some {tgen.gdense(o['ok']['shape'], o['ok']['data'])})"
-        return f"od_ok {_perm_call(f'permute_d 0%Z {T}', a)} {obs}"
+        return f"od_ok {_perm_call(f'permute_d 0%Z {T}', a, f'permute_d_req5 0%Z {T}')} {obs}"
     if c.op == "reshape_d":
         T = tgen.gdense(a["shape"], a["data"])
         if not exc and not _d_ok(o["ok"]):
@@ -1363,16 +1506,19 @@ def coq_check(c, o):
                 e = (f"andb ({e}) (match sptensor_permute_req {Z} {_gshp(a['p'], a['pform'])} with "
                      f"Ok t => os_ok (Some (to_Sp t)) {obs} | Err => os_ok None {obs} end)")
             return e
+        # the request as sptensor.reshape reads it after /repo b27c529 (Model/C07W5.v reshape_sp_code: mode-number test,
+        # size-sign test, size check, empty branch, the GENERATED tt_sub2ind / tt_ind2sub through Model/C07Gen.v)
+        xs = _gshp(a["newz"], "tuple") if "newz" in a else _gshp(a["new"], a.get("sform") or "tuple")
+        om = f"(Some {_gzl(a['oldz'])})" if "oldz" in a else "None" if a["old"] is None else f"(Some {_gzl(a['old'])})"
+        code = f"os_ok (res_opt (reshape_sp_code {S} {xs} {om})) {obs}"
         if "oldz" in a:            # mode numbers as written (negative / out of range: not modes of the tensor)
-            return f"os_ok (reshape_sp_req {S} {_gshp(a['new'], 'tuple')} {_gzl(a['oldz'])}) {obs}"
+            return f"andb (os_ok (reshape_sp_req {S} {xs} {_gzl(a['oldz'])}) {obs}) ({code})"
         if "newz" in a or a.get("sform"):
-            return f"os_ok {_shape_call(f'reshape_sp_all {S}', a)} {obs}"
-        # hand model and the transliteration over the GENERATED tt_sub2ind / tt_ind2sub (Model/C07Gen.v) against pyttb
-        oldm = a["old"] if a["old"] is not None else list(range(len(a["shape"])))
-        gen = f"os_ok (res_opt (reshape_sp_gen {S} {gnlist(a['new'])} {gnlist(oldm)})) {obs}"
+            return f"andb (os_ok {_shape_call(f'reshape_sp_all {S}', a)} {obs}) ({code})"
+        # hand model against pyttb
         if a["old"] is None:
-            return f"andb (os_ok (reshape_sp_all {S} {gnlist(a['new'])}) {obs}) ({gen})"
-        return f"andb (os_ok (reshape_sp {S} {gnlist(a['new'])} {gnlist(a['old'])}) {obs}) ({gen})"
+            return f"andb (os_ok (reshape_sp_all {S} {gnlist(a['new'])}) {obs}) ({code})"
+        return f"andb (os_ok (reshape_sp {S} {gnlist(a['new'])} {gnlist(a['old'])}) {obs}) ({code})"
     if c.op == "permute_k":
         Kin = o.get("pre", a["K"])
         if not _k_int(Kin):
@@ -1385,7 +1531,7 @@ def coq_check(c, o):
             if not tgen.all_int(ob["weights"]) or not all(tgen.all_int(r) for f in ob["factors"] for r in f):
                 return "false"
             kobs = f"(Some {_gk_shaped(ob, [len(f) for f in ob['factors']])})"
-        e = f"ok_ok {_perm_call(f'permute_k {K}', a)} {kobs}"
+        e = f"ok_ok {_perm_call(f'permute_k {K}', a, f'permute_k_req5 {K}')} {kobs}"
         if a.get("pform") and Kin["weights"]:     # request -> GENERATED parse_one_d -> GENERATED ktensor.permute (Model/C07Gen4.v)
             Z = f"(mkkt {gzlist(Kin['weights'])} [{'; '.join(gzmat(f) for f in Kin['factors'])}])"
             e = (f"andb ({e}) (match ktensor_permute_req {Z} {_gshp(a['p'], a['pform'])} with "
@@ -1548,7 +1694,7 @@ def _table(kind, ob, zeros_ok=False):
     return shp, {tuple(i): _den_st(c["shape"], cd, ob["factors"], i) for i in tgen.all_subs(shp)}
 
 
-def _table_step(shape, tab, st):
+def _table_step(shape, tab, st, kind="sp"):
     N = len(shape)
     if st[0] == "permute":
         p = st[1]
@@ -1562,7 +1708,7 @@ def _table_step(shape, tab, st):
         oshape = [shape[k] for k in old]
         return ([shape[k] for k in keep] + list(new),
                 {tuple([i[k] for k in keep] + _unlin(new, _lin(oshape, [i[k] for k in old]))): v for i, v in tab.items()})
-    keepi = [k for k, d in enumerate(shape) if d > 1]
+    keepi = [k for k, d in enumerate(shape) if (d != 1 if kind == "d" else d > 1)]
     return [shape[k] for k in keepi], {tuple(i[k] for k in keepi): v for i, v in tab.items()}
 
 
@@ -1587,7 +1733,7 @@ def _chain_oracle(a, o):
         cur = _table("st", {"core": {"shape": H["cshape"], "subs": H["csubs"], "vals": H["cvals"]}, "factors": H["factors"]}, True)
     first = None
     for k, (st, res) in enumerate(zip(a["steps"], o["steps"])):
-        shape, tab = _table_step(cur[0], cur[1], st)
+        shape, tab = _table_step(cur[0], cur[1], st, kind)
         if first is None:
             first = (shape, tab)
         if not shape:
@@ -1696,6 +1842,15 @@ def oracle(c, o):
             a["K"] = o["pre"]
         else:
             a["H"] = o["pre"]
+    if c.op.startswith("permute") and a.get("pform") in BOOL_FORMS:
+        # a vector of truth values is not a mode order: refusing it is fine; an answer must be the permutation by the
+        # numbers 1 / 0 (ktensor.permute), or the tensor itself for [True] on a one-mode dense tensor (A-28 residue, C19)
+        if "exc" in o:
+            return None
+        if not _valid_perm(a["p"], N) and not (c.op == "permute_d" and N == 1 and a["p"] == [1] and o["ok"]["data"] == a["data"]):
+            return f"boolean order {a['p']} accepted"
+        if not _valid_perm(a["p"], N):
+            return None
     if c.op.startswith("permute"):
         p = a["p"]
         if not _valid_perm(p, N):
@@ -1828,7 +1983,7 @@ def oracle(c, o):
     if c.op in ("squeeze_d", "squeeze_sp"):
         if "exc" in o:
             return f"squeeze raised {o['exc']}: {o.get('msg')}"
-        keepi = [k for k, d in enumerate(shp) if d > 1]
+        keepi = [k for k, d in enumerate(shp) if (d != 1 if c.op == "squeeze_d" else d > 1)]   # a size-0 mode is no singleton
         nshape = [shp[k] for k in keepi]
         if c.op == "squeeze_d":
             if not keepi:
@@ -1851,69 +2006,7 @@ def oracle(c, o):
 
 
 # ---------------------------------------------------------------------------------------- known findings
-def _trig_neg_old(c):
-    return c.op == "reshape_sp" and any(x < 0 for x in c.args.get("oldz", []))
-
-
-def _trig_empty_neg_sizes(c):
-    a = c.args
-    return (c.op == "reshape_sp" and "newz" in a and any(x < 0 for x in a["newz"]) and not a["vals"]
-            and math.prod(a["newz"]) == math.prod(a["shape"]))
-
-
-TRIGGERS = {"reshape_negative_old_modes": _trig_neg_old, "reshape_empty_negative_sizes": _trig_empty_neg_sizes}
-
-
-def _wit_neg_old():
-    import numpy as np
-    import pyttb as ttb
-    S = ttb.sptensor(np.array([[0, 1], [1, 2]]), np.array([[5.0], [6.0]]), (2, 3))
-    try:
-        R = S.reshape((3,), -1)
-    except Exception:
-        return None
-    if tuple(int(d) for d in R.shape) == (2, 3):
-        return None
-    return f"sptensor((2,3)).reshape((3,), old_modes=-1) returned shape {tuple(int(d) for d in R.shape)}, subs {R.subs.tolist()}"
-
-
-def _wit_empty_neg_sizes():
-    import numpy as np
-    import pyttb as ttb
-    try:
-        R = ttb.sptensor(shape=(2, 3)).reshape((-2, -3))
-    except Exception:
-        return None
-    return f"sptensor(shape=(2,3)).reshape((-2,-3)) returned a tensor of shape {tuple(int(d) for d in R.shape)}"
-
-
-def _wit_bool_order():
-    import numpy as np
-    import pyttb as ttb
-    S = ttb.sptensor(np.array([[0, 1], [1, 2]]), np.array([[5.0], [6.0]]), (2, 3))
-    try:
-        R = S.permute([True, False])
-    except Exception:
-        return None
-    if tuple(int(d) for d in R.shape) == (3, 2):
-        return None
-    return f"sptensor((2,3)).permute([True, False]) returned shape {tuple(int(d) for d in R.shape)}, subs {R.subs.tolist()}"
-
-
-def _wit_squeeze_zero_mode():
-    import numpy as np
-    import pyttb as ttb
-    try:
-        R = ttb.tensor(np.zeros((1, 0))).squeeze()
-    except Exception as ex:
-        return f"tensor(np.zeros((1,0))).squeeze() raised {type(ex).__name__}: {ex}"
-    return None if isinstance(R, ttb.tensor) and tuple(R.data.shape) == (0,) else f"tensor((1,0)).squeeze() returned {R!r}"
-
-
-WITNESSES = {"N-C07-3": _wit_neg_old, "N-C07-4": _wit_empty_neg_sizes, "N-C07-5": _wit_bool_order, "N-C07-6": _wit_squeeze_zero_mode}
-# N-C07-3 / N-C07-4 / N-C07-5 (found in wave 4) are open.  N-C07-5 has no trigger: boolean orders are not in the stream (the
-# request model of Np/NpZ3b.v has no boolean list elements), the witness alone is replayed on every run.  N-C07-6 (dense squeeze
-# with a size-0 mode) has no trigger either: the squeeze theorems assume positive sizes (sqz keeps d > 1), dense holders with a
-# size-0 mode are in the permute_d / reshape_d stream only (sptensor refuses such shapes).  N-C07-1 (squeeze of an empty all-singleton sptensor) and N-C07-2 (int old_modes) are repaired in /repo;
-# their input classes stay in the stream (squeeze_sp over every all-singleton shape with fill 0; reshape_sp with
-# "old_int") and are no longer attributed: a regression is reported as a VIOLATION.
+# None open.  N-C07-1 (50c170a), N-C07-2 (5dc7c44), N-C07-3 / N-C07-4 (b27c529), N-C07-5 (9c8fdd5), N-C07-6 (649a706) are repaired
+# in /repo: model, comparer and oracle accept only the repaired behaviour, the witness inputs are ordinary regression cases at
+# the head of gen_w5 and their input classes are ordinary stream classes (no trigger, no attribution): a regression is
+# reported as a VIOLATION.
